@@ -384,10 +384,17 @@ int main(void) {
   static struct res ra[MAXOPS], rb[MAXOPS];
   char *ln = NULL; size_t lsz = 0; ssize_t n;
   char sid[64] = "";
-  int nops = 0;
+  int nops = 0, timeouts = 0;
   while ((n = getline(&ln, &lsz, stdin)) > 0) {
     if (ln[n - 1] == '\n') ln[--n] = 0;
     if (ln[0] == 'S') { sscanf(ln + 2, "%63s", sid); nops = 0; continue; }
+    if (ln[0] == 'E' && timeouts >= 3) {
+      /* three scripts of this batch already ran into the watchdog: the remaining ones are not run (the hangs are reported, the batch stays bounded) */
+      printf("{\"e\":\"Skipped\",\"i\":0}\n{\"e\":\"Reset\",\"s\":\"%s\"}\n", sid);
+      for (int k = 0; k < nops; k++) { free(ops[k].text); ops[k].text = NULL; }
+      nops = 0;
+      continue;
+    }
     if (ln[0] == 'E') {
       fflush(stdout);
       pid_t pid = fork();
@@ -396,7 +403,7 @@ int main(void) {
         int keep = dup(1);
         int nul = open("/dev/null", 1);
         dup2(nul, 1);
-        alarm(20);
+        alarm(6);
         run_pass(ops, nops, 0xAA, ra);
         run_pass(ops, nops, 0x55, rb);
         alarm(0);
@@ -408,6 +415,7 @@ int main(void) {
       }
       int st = 0;
       waitpid(pid, &st, 0);
+      if (WIFSIGNALED(st) && WTERMSIG(st) == SIGALRM) timeouts++;
       if (!(WIFEXITED(st) && WEXITSTATUS(st) == 0)) {
         /* replay up to the crash is not available: report the script as faulted */
         printf("{\"e\":\"Fault\",\"s\":\"%s\",\"sig\":%d,\"exit\":%d}\n", sid, WIFSIGNALED(st) ? WTERMSIG(st) : 0, WIFEXITED(st) ? WEXITSTATUS(st) : -1);
